@@ -100,6 +100,8 @@ STATEFUL_EXTRA = [
     "SELECT * FROM t PIVOT(SUM(v) FOR k IN ('a', 'b'))", "SELECT a FROM t QUALIFY ROW_NUMBER() OVER (PARTITION BY b ORDER BY c) = 1",
     "CREATE TABLE t (a INT PRIMARY KEY, b TEXT NOT NULL DEFAULT 'x')", "SELECT * FROM UNNEST([1, 2]) AS x", "SELECT DATE_ADD(d, INTERVAL 1 DAY) FROM t",
     "SELECT STRUCT(1 AS a, 'x' AS b)", "SELECT ARRAY_AGG(DISTINCT a ORDER BY b) FROM t", "SELECT a::INT, b::VARCHAR(10) FROM t", "SELECT 'it''s', \"q\" FROM t",
+    # inputs that end before anything can take their pending state: a comment alone, a comment before a lexing error
+    "/* only a comment */", "-- just a comment", "/* c */ 'unterminated", "SELECT 1; /* trailing */",
 ]
 
 
